@@ -92,6 +92,7 @@ class Ctx:
         self.holes = []          # filled in by the symbolic backend
         self.notes = {}
         self.known_sat = True    # is the current path condition known to be satisfiable?
+        self.decided = {}        # z3 ast id -> (term, bool): literals already on the path condition
 
     # ---- fresh symbols (deterministic names => identical terms on re-execution)
     def fresh_name(self, name):
@@ -134,10 +135,16 @@ class Ctx:
         """Branch on a z3 Bool term; returns a python bool."""
         if isinstance(term, bool):
             return term
-        if z3.is_true(term):
+        r = z3.Z3_get_bool_value(term.ctx.ref(), term.ast)
+        if r == 1:
             return True
-        if z3.is_false(term):
+        if r == -1:
             return False
+        # a literal that is already part of the path condition needs neither a
+        # solver call nor a trail entry (z3 hash-conses terms: same structure, same id)
+        hit = self.decided.get(term.get_id())
+        if hit is not None:
+            return hit[1]
         pos = len(self.trail)
         if pos < len(self.prefix):
             choice = self.prefix[pos]
@@ -157,6 +164,10 @@ class Ctx:
         lit = term if choice else z3.Not(term)
         self.solver.add(lit)
         self.pc.append(lit)
+        self.decided[term.get_id()] = (term, choice)
+        if z3.is_not(term):
+            inner = term.arg(0)
+            self.decided[inner.get_id()] = (inner, not choice)
         return choice
 
     def choose(self, n):
